@@ -208,4 +208,12 @@ def interstitial_extras(tier='quick', seed=0):
         # polar tetragonal host (no inversion: pseudo-inverse branch of the bias solve), mobile species on two Wyckoff sets, NV = 2
         cr = C(np.diag([1., 1., 1.3]), [[np.zeros(3)], [np.array([0, 0, 0.42])], [np.array([.5, .5, .18]), np.array([.5, 0, .7]), np.array([0, .5, .7])]], chemistry=['A', 'B', 'X'])
         return _entry('P4mm-polar-3site', cr, chem=2, cutoff=0.95, interstitial=True, polar=True)
-    return [('BCC+oct+tet', bccOT), ('FCC+oct+tet', fccOT), ('P4mm-polar-3site', p4mm)]
+    def hcpOTmixed():
+        # the same octahedral + tetrahedral network as HCP+OT with the interstitial basis listed in mixed order: the Wyckoff sets are
+        # not contiguous index blocks (site list [[0, 2, 3, 5], [1, 4]]-like)
+        hcp = C.HCP(1., chemistry='Mg')
+        O = hcp.Wyckoffpos(np.array([0., 0., 0.5])); T = hcp.Wyckoffpos(np.array([1 / 3, 2 / 3, 0.625]))
+        mixed = [T[0], O[0], T[1], T[2], O[1], T[3]]
+        cr = C(hcp.lattice, [list(hcp.basis[0]), mixed], chemistry=['Mg', 'O'])
+        return _entry('HCP+OT-mixed-order', cr, chem=1, cutoff=0.7, interstitial=True)
+    return [('BCC+oct+tet', bccOT), ('FCC+oct+tet', fccOT), ('P4mm-polar-3site', p4mm), ('HCP+OT-mixed-order', hcpOTmixed)]
